@@ -11,10 +11,13 @@ GensAll == {"loo_rdm", "k_fold_rdm", "of_k_rdm", "k_fold", "random"}
 MOpt == {"cosine", "corr", "rho-a"}
 MAll == {"cosine", "corr", "rho-a", "cosine_cov", "corr_cov"}
 MOne == {"cosine"}
+MPool == {"euclid", "neg_riem_dist", "cosine", "corr", "cosine_cov", "corr_cov", "spearman", "rho-a", "kendall",
+          "tau-b", "tau-a"}
 MaskNone == {{}}
 \* 4 conditions, 6 entries (12 13 14 23 24 34): entries missing from all RDMs
 Mask4a == {{1, 6}, {2, 3, 5}}          \* 4 resp. 3 entries left
 Mask4b == {{4}}                        \* 5 entries left
+Mask4ab == {{1, 6}, {2, 3, 5}, {4}}
 BySubj == {"subj"}
 ByGrp == {"grp"}
 ByBoth == {"subj", "grp"}
